@@ -15,5 +15,12 @@ python3-vt -c "
 import sys; sys.path.insert(0, '/verif')
 from vlib.mirsym.engine import load_program
 p = load_program(('core',)); print('core MIR:', len(p.funcs), 'bodies')
+p = load_program(('core', 'cli')); print('core+cli MIR:', len(p.funcs), 'bodies')
+p = load_program(('annotation',)); print('annotation MIR:', len(p.funcs), 'bodies')
+# native drivers composed from /repo/cli/src and /repo/annotation/src (rebuilt by the checks whenever those change)
+from vlib.harness import build_clidrv
+print('cli driver:', build_clidrv())
+from checks.c19 import build_anndrv
+print('annotation driver:', build_anndrv())
 "
 echo setup done
